@@ -696,6 +696,12 @@ def gen_lines(rnd):
     return out
 
 
+# validators (__post_init__ units): `self` is built field by field without running the constructors, so that
+# the invalid cases the validator must reject are generated at all (the special generators above build
+# well-formed objects with the real constructors)
+RAW_TOP = False
+
+
 def gen(shape, rnd, depth=0):
     if isinstance(shape, SeqS) and isinstance(shape.elem, StrS) and rnd.random() < 0.7:
         return gen_lines(rnd)
@@ -726,7 +732,7 @@ def gen(shape, rnd, depth=0):
     if isinstance(shape, UnionS):
         return gen(rnd.choice(shape.alts), rnd, depth)
     if isinstance(shape, RecS):
-        special = SPECIAL_GEN.get(shape.key)
+        special = SPECIAL_GEN.get(shape.key) if not (RAW_TOP and depth == 0) else None
         if special is not None:
             return special(rnd)
         cls = live_class(shape.key)
@@ -764,8 +770,25 @@ CHART_TEXTS = [
 
 
 def gen_chart(rnd):
+    """a parsed chart: the two fixed texts or a generated well-framed file (generated sync section, several
+    tracks, some of them without notes)"""
     import io
+    import logging
     import chartparse.chart as cc
+    if rnd.random() < 0.5:
+        from . import native_file as nf
+        lg = logging.getLogger("chartparse")
+        old = lg.level
+        lg.setLevel(logging.CRITICAL)
+        try:
+            for _ in range(5):
+                secs, _w = nf.gen_sections(rnd, allow_bad=False)
+                try:
+                    return cc.Chart.from_file(io.StringIO(nf.text_of(secs)))
+                except Exception:
+                    continue
+        finally:
+            lg.setLevel(old)
     return cc.Chart.from_file(io.StringIO(rnd.choice(CHART_TEXTS)))
 
 
@@ -877,7 +900,12 @@ def search(reg, unit, seed, budget=2000, deadline_s=20):
         if time.time() - t0 > unit_deadline:
             break
         try:
-            args = {p: gen(sh, rnd) for p, sh in c.params.items() if not isinstance(sh, Conc)}
+            global RAW_TOP
+            RAW_TOP = c.key.endswith("__post_init__")
+            try:
+                args = {p: gen(sh, rnd) for p, sh in c.params.items() if not isinstance(sh, Conc)}
+            finally:
+                RAW_TOP = False
             args = sorted_fix(c, args, rnd)
         except NotEvaluable:
             return None
